@@ -192,19 +192,30 @@ def run_harness(args):
                                                    "answers": [], "opcode": opcode}, solo_before, traced)
     outcomes, fps, states = set(), set(), set()
     transitions = 0
-    for ch, ex, res in sched.explore(mk, bound, opcode, fingerprint):
+    last = None
+    for ch, ex, res in sched.explore(mk, len(specs), bound, opcode, fingerprint):
         part.count((name, ch.answers), nontrivial=ex.preemptions > 0)
         transitions += ex.total_steps
         fps |= ex.fingerprints
         for me, st, to in ex.switch_log:
             states.add((name, me, st, to))
         outcomes.add(repr(res))
+        if ex.preemptions:
+            last = (ch.answers, list(res), list(ex.steps))
         if res != solo_before:
             wrong = [i for i, (a, b) in enumerate(zip(res, solo_before)) if a != b]
             part.violation(f"{name.split(':')[0]}:thread-result-differs-from-solo",
                            {"kind": "c14", "harness": name, "ops": specs, "answers": list(ch.answers),
                             "opcode": opcode, "switches": ex.switch_log, "wrong_threads": wrong},
                            solo_before, res)
+    # determinism of the scheduler: the last explored schedule, replayed twice, must repeat itself
+    if last is not None:
+        again = [sched.run_once(mk(), last[0], opcode=opcode) for _ in range(2)]
+        for ch2, st2, res2 in again:
+            if res2 != last[1] or st2.steps != last[2]:
+                raise report.HarnessError(f"{name}: schedule {last[0]} does not replay deterministically: "
+                                          f"{last[1]}/{last[2]} vs {res2}/{st2.steps}")
+        part.stat("schedules_replayed_twice_identically")
     solo_after = [op() for op in mk()]
     if solo_after != solo_before:
         part.violation("solo-result-changed-after-exploration", {"kind": "c14", "harness": name,
